@@ -204,6 +204,195 @@ theorem Rel.compareLists (d : Nat) (xs ys : List TId) :
       rel_all hle hrec
       all_goals exact ih _
 
+theorem Rel.std_filter (t0 t1 : TId) (d1 : Nat) :
+    Rel (std_filter { maxStack := s } r t0 t1 d1) (std_filter { maxStack := s' } r' t0 t1 d1) := by
+  unfold Rsj.Eval.std_filter
+  rel_all hle hrec
+
+theorem Rel.std_foldl (t0 t1 t2 : TId) (d1 : Nat) :
+    Rel (std_foldl { maxStack := s } r t0 t1 t2 d1) (std_foldl { maxStack := s' } r' t0 t1 t2 d1) := by
+  unfold Rsj.Eval.std_foldl
+  rel_all hle hrec
+
+theorem Rel.std_foldr (t0 t1 t2 : TId) (d1 : Nat) :
+    Rel (std_foldr { maxStack := s } r t0 t1 t2 d1) (std_foldr { maxStack := s' } r' t0 t1 t2 d1) := by
+  unfold Rsj.Eval.std_foldr
+  rel_all hle hrec
+
+theorem Rel.std_flatMap (t0 t1 : TId) (d1 : Nat) :
+    Rel (std_flatMap { maxStack := s } r t0 t1 d1) (std_flatMap { maxStack := s' } r' t0 t1 d1) := by
+  unfold Rsj.Eval.std_flatMap
+  rel_all hle hrec
+
+omit hle in
+theorem Rel.std_mapWithIndex (t0 t1 : TId) (d1 : Nat) : Rel (std_mapWithIndex r t0 t1 d1) (std_mapWithIndex r' t0 t1 d1) := by
+  unfold Rsj.Eval.std_mapWithIndex
+  rel_all hle hrec
+  all_goals first
+    | exact Rel.recStr hrec _
+    | exact Rel.coerceToString hrec _ _
+
+omit hle in
+theorem Rel.std_mapWithKey (t0 t1 : TId) (d1 : Nat) : Rel (std_mapWithKey r t0 t1 d1) (std_mapWithKey r' t0 t1 d1) := by
+  unfold Rsj.Eval.std_mapWithKey
+  rel_all hle hrec
+  all_goals first
+    | exact Rel.recStr hrec _
+    | exact Rel.coerceToString hrec _ _
+
+theorem Rel.std_filterMap (t0 t1 t2 : TId) (d1 : Nat) :
+    Rel (std_filterMap { maxStack := s } r t0 t1 t2 d1) (std_filterMap { maxStack := s' } r' t0 t1 t2 d1) := by
+  unfold Rsj.Eval.std_filterMap
+  rel_all hle hrec
+
+omit hle in
+theorem Rel.std_join (t0 t1 : TId) (d1 : Nat) : Rel (std_join r t0 t1 d1) (std_join r' t0 t1 d1) := by
+  unfold Rsj.Eval.std_join
+  rel_all hle hrec
+  all_goals first
+    | exact Rel.recStr hrec _
+    | exact Rel.coerceToString hrec _ _
+
+omit hle in
+theorem Rel.std_range (t0 t1 : TId) (d1 : Nat) : Rel (std_range r t0 t1 d1) (std_range r' t0 t1 d1) := by
+  unfold Rsj.Eval.std_range
+  rel_all hle hrec
+  all_goals first
+    | exact Rel.recStr hrec _
+    | exact Rel.coerceToString hrec _ _
+
+omit hle in
+theorem Rel.std_member (t0 t1 : TId) (d1 : Nat) : Rel (std_member r t0 t1 d1) (std_member r' t0 t1 d1) := by
+  unfold Rsj.Eval.std_member
+  rel_all hle hrec
+  all_goals first
+    | exact Rel.recStr hrec _
+    | exact Rel.coerceToString hrec _ _
+
+omit hle in
+theorem Rel.std_count (t0 t1 : TId) (d1 : Nat) : Rel (std_count r t0 t1 d1) (std_count r' t0 t1 d1) := by
+  unfold Rsj.Eval.std_count
+  rel_all hle hrec
+  all_goals first
+    | exact Rel.recStr hrec _
+    | exact Rel.coerceToString hrec _ _
+
+omit hle in
+theorem Rel.std_all (t : TId) (d1 : Nat) : Rel (std_all r t d1) (std_all r' t d1) := by
+  unfold Rsj.Eval.std_all
+  rel_all hle hrec
+  all_goals first
+    | exact Rel.recStr hrec _
+    | exact Rel.coerceToString hrec _ _
+
+omit hle in
+theorem Rel.std_any (t : TId) (d1 : Nat) : Rel (std_any r t d1) (std_any r' t d1) := by
+  unfold Rsj.Eval.std_any
+  rel_all hle hrec
+  all_goals first
+    | exact Rel.recStr hrec _
+    | exact Rel.coerceToString hrec _ _
+
+omit hle in
+theorem Rel.std_equals (t0 t1 : TId) (d1 : Nat) : Rel (std_equals r t0 t1 d1) (std_equals r' t0 t1 d1) := by
+  unfold Rsj.Eval.std_equals
+  rel_all hle hrec
+  all_goals first
+    | exact Rel.recStr hrec _
+    | exact Rel.coerceToString hrec _ _
+
+omit hle in
+theorem Rel.std_compare (t0 t1 : TId) (d1 : Nat) : Rel (std_compare r t0 t1 d1) (std_compare r' t0 t1 d1) := by
+  unfold Rsj.Eval.std_compare
+  rel_all hle hrec
+  all_goals first
+    | exact Rel.recStr hrec _
+    | exact Rel.coerceToString hrec _ _
+
+omit hle in
+theorem Rel.std_primitiveEquals (t0 t1 : TId) (d1 : Nat) : Rel (std_primitiveEquals r t0 t1 d1) (std_primitiveEquals r' t0 t1 d1) := by
+  unfold Rsj.Eval.std_primitiveEquals
+  rel_all hle hrec
+  all_goals first
+    | exact Rel.recStr hrec _
+    | exact Rel.coerceToString hrec _ _
+
+omit hle in
+theorem Rel.std_assertEqual (t0 t1 : TId) (d1 : Nat) : Rel (std_assertEqual r t0 t1 d1) (std_assertEqual r' t0 t1 d1) := by
+  unfold Rsj.Eval.std_assertEqual
+  rel_all hle hrec
+  all_goals first
+    | exact Rel.recStr hrec _
+    | exact Rel.coerceToString hrec _ _
+
+omit hle in
+theorem Rel.std_toString (t : TId) (d1 : Nat) : Rel (std_toString r t d1) (std_toString r' t d1) := by
+  unfold Rsj.Eval.std_toString
+  rel_all hle hrec
+  all_goals first
+    | exact Rel.recStr hrec _
+    | exact Rel.coerceToString hrec _ _
+
+theorem Rel.std_sortKeys (kf : Option FId) (items : List TId) (d1 : Nat) :
+    Rel (std_sortKeys { maxStack := s } r kf items d1) (std_sortKeys { maxStack := s' } r' kf items d1) := by
+  unfold Rsj.Eval.std_sortKeys
+  rel_all hle hrec
+
+omit hle in
+theorem Rel.std_qsort (keys : List Value) (d1 : Nat) (fuel : Nat) (xs : List Nat) :
+    Rel (std_qsort r keys d1 fuel xs) (std_qsort r' keys d1 fuel xs) := by
+  induction fuel generalizing xs with
+  | zero => unfold Rsj.Eval.std_qsort; exact Rel.refl _
+  | succ k ih =>
+    cases xs with
+    | nil => unfold Rsj.Eval.std_qsort; exact Rel.refl _
+    | cons p rest =>
+      cases rest with
+      | nil => unfold Rsj.Eval.std_qsort; exact Rel.refl _
+      | cons q rest =>
+        unfold Rsj.Eval.std_qsort
+        generalize (q :: rest) = tl
+        rel_all hle hrec
+        all_goals exact ih _
+
+theorem Rel.std_sortSet (u : Bool) (t0 : TId) (t1 : Option TId) (d1 : Nat) :
+    Rel (std_sortSet { maxStack := s } r u t0 t1 d1) (std_sortSet { maxStack := s' } r' u t0 t1 d1) := by
+  unfold Rsj.Eval.std_sortSet
+  rel_all hle hrec
+  all_goals first
+    | exact Rel.std_sortKeys hle hrec _ _ _
+    | exact Rel.std_qsort hrec _ _ _ _
+
+theorem Rel.builtinCall2 (b : Builtin) (ts : List TId) (d1 : Nat) :
+    Rel (builtinCall2 { maxStack := s } r b ts d1) (builtinCall2 { maxStack := s' } r' b ts d1) := by
+  unfold Rsj.Eval.builtinCall2
+  rel_all hle hrec
+  all_goals first
+    | exact Rel.builtinCall hrec _ _ _
+    | exact Rel.std_sortSet hle hrec _ _ _ _
+    | exact Rel.std_sortKeys hle hrec _ _ _
+    | exact Rel.std_qsort hrec _ _ _ _
+    | exact Rel.std_filter hle hrec _ _ _
+    | exact Rel.std_foldl hle hrec _ _ _ _
+    | exact Rel.std_foldr hle hrec _ _ _ _
+    | exact Rel.std_flatMap hle hrec _ _ _
+    | exact Rel.std_mapWithIndex hrec _ _ _
+    | exact Rel.std_mapWithKey hrec _ _ _
+    | exact Rel.std_filterMap hle hrec _ _ _ _
+    | exact Rel.std_join hrec _ _ _
+    | exact Rel.std_range hrec _ _ _
+    | exact Rel.std_member hrec _ _ _
+    | exact Rel.std_count hrec _ _ _
+    | exact Rel.std_all hrec _ _
+    | exact Rel.std_any hrec _ _
+    | exact Rel.std_equals hrec _ _ _
+    | exact Rel.std_compare hrec _ _ _
+    | exact Rel.std_primitiveEquals hrec _ _ _
+    | exact Rel.std_assertEqual hrec _ _ _
+    | exact Rel.std_toString hrec _ _
+    | exact Rel.recStr hrec _
+    | exact Rel.coerceToString hrec _ _
+
 theorem Rel.thunkBody (p : Pending) (d : Nat) :
     Rel (thunkBody { maxStack := s } r p d) (thunkBody { maxStack := s' } r' p d) := by
   unfold Rsj.Eval.thunkBody
@@ -227,7 +416,7 @@ theorem Rel.step (t : Task) :
     | exact Rel.recStr hrec _
     | exact Rel.objectMember hrec _ _ _ _
     | exact Rel.sliceArg hrec _ _ _
-    | exact Rel.builtinCall hrec _ _ _
+    | exact Rel.builtinCall2 hle hrec _ _ _
     | exact Rel.thunkBody hle hrec _ _
 end
 
